@@ -21,7 +21,10 @@ CtorAlgos == {"uninitialized_default_construct", "uninitialized_default_construc
               "uninitialized_value_construct_n"}
 SrcKinds == {"ptr", "ra", "bidir", "fwd", "move", "rev"}     \* rev: std::reverse_iterator<T*>: random access, NOT contiguous
 DstKinds == {"ptr", "ra"}
-Cats == {"TC", "TR", "NTR", "NTRM"}
+\* "TDC": trivially default constructible but NOT trivially copyable (user-provided copy assignment): like "TC" it has no
+\* observable construction and cannot throw, but running its assignment operator on raw storage is observable
+Cats == {"TC", "TDC", "TR", "NTR", "NTRM"}
+Plain(cat) == cat \in {"TC", "TDC"}
 
 MLbl(a, n, sit, dit, cat, k) == [a |-> a, n |-> n, sit |-> sit, dit |-> dit, cat |-> cat, k |-> k]
 
@@ -35,14 +38,14 @@ MovedS(v) == Slot("moved", v)
 Moves(lb) == lb.a \in MoveAlgos \cup RelocAlgos \cup {"relocate_at"} \/ (lb.a \in CopyAlgos /\ lb.sit = "move")
 \* can the k-th element construction of this call throw at all
 CanThrow(lb) ==
-  /\ lb.cat # "TC"
+  /\ ~Plain(lb.cat)
   /\ \/ lb.a \in CtorAlgos \cup {"construct_at"}
      \/ (lb.a \in CopyAlgos /\ lb.sit # "move")
      \/ (Moves(lb) /\ lb.cat = "NTRM")
 Throws(lb) == CanThrow(lb) /\ lb.k >= 1 /\ lb.k <= (IF lb.a \in {"construct_at", "relocate_at"} THEN 1 ELSE lb.n)
 
 \* state of a source element after having been moved from: a trivially copyable one is simply copied
-AfterMove(lb, v) == IF lb.cat = "TC" THEN Live(v) ELSE MovedS(v)
+AfterMove(lb, v) == IF Plain(lb.cat) THEN Live(v) ELSE MovedS(v)
 
 MemExpect(lb) ==
   LET n == lb.n
